@@ -311,6 +311,43 @@ pub mod kani {
 '''
 
 
+def emulate_arbitrary_derive(text):
+    """native builds have no kani derive macro: drop `kani::Arbitrary` from derive lists and emit the impl the
+    macro would generate (enums: `match any::<i32>() { 0 => V0, .., _ => Vlast }`, structs: field by field)"""
+    impls = []
+    for m in re.finditer(r'#\[derive\(([^)]*kani::Arbitrary[^)]*)\)\]\s*(?:#\[[^\]]*\]\s*)*pub\s+(enum|struct)\s+(\w+)\s*([({])', text):
+        kind, name = m.group(2), m.group(3)
+        o = m.end() - 1
+        close = {'{': '}', '(': ')'}[text[o]]
+        depth, k = 0, o
+        while True:
+            if text[k] == text[o]:
+                depth += 1
+            elif text[k] == close:
+                depth -= 1
+                if depth == 0:
+                    break
+            k += 1
+        body = text[o + 1:k]
+        body = re.sub(r'#\[[^\]]*\]', '', body)
+        body = re.sub(r'//[^\n]*', '', body)
+        parts = [x.strip() for x in body.split(',') if x.strip()]
+        if kind == 'enum':
+            vs = [re.match(r'(\w+)', x).group(1) for x in parts]
+            if any(('(' in x or '{' in x) for x in parts):
+                continue
+            arms = ''.join('%d => %s::%s, ' % (i, name, v) for i, v in enumerate(vs[:-1])) + '_ => %s::%s' % (name, vs[-1])
+            impls.append('impl kani::Arbitrary for %s { fn any() -> Self { match <i32 as kani::Arbitrary>::any() { %s } } }' % (name, arms))
+        elif text[o] == '{':
+            fs = [re.match(r'(?:pub(?:\([^)]*\))?\s+)?(\w+)\s*:', x).group(1) for x in parts]
+            impls.append('impl kani::Arbitrary for %s { fn any() -> Self { %s { %s } } }' % (name, name, ', '.join('%s: kani::any()' % f for f in fs)))
+        else:
+            impls.append('impl kani::Arbitrary for %s { fn any() -> Self { %s(%s) } }' % (name, name, ', '.join('kani::any()' for _ in parts)))
+    text = re.sub(r',\s*kani::Arbitrary', '', text)
+    text = re.sub(r'kani::Arbitrary\s*,\s*', '', text)
+    return text, '\n'.join(impls)
+
+
 def native_replay(uname, harness, vals, tag):
     """build the unit in native mode against the real crate and run one harness with the
     counterexample values.  -> dict(reproduced, output)"""
@@ -318,18 +355,22 @@ def native_replay(uname, harness, vals, tag):
         nu = gen.process(uname, WORK, mode='native')
     except Exception as e:
         return dict(reproduced=False, output='native replay not available: %s' % e)
-    if not nu.opts.get('native'):
-        return dict(reproduced=False, output='unit %s has no native section (replay against the real code not assembled)' % uname)
+    same_text = not nu.opts.get('native')
+    # units without a `native` section are replayed on the same generated text (verbatim extracted functions,
+    # real dependency crates where the unit has them, stand-in reader where the unit uses one)
     rdir = os.path.join(WORK, 'replay', uname)
     os.makedirs(os.path.join(rdir, 'src'), exist_ok=True)
     os.makedirs(os.path.join(rdir, '.cargo'), exist_ok=True)
-    deps = ['rs1090 = { path = "%s/crates/rs1090" }' % REPO, 'deku = "0.18.1"'] + list(nu.deps)
+    deps = (['rs1090 = { path = "%s/crates/rs1090" }' % REPO, 'deku = "0.18.1"'] if not same_text else []) + list(nu.deps)
+    deps = list(dict((d.split('=')[0].strip(), d) for d in deps).values())
     with open(os.path.join(rdir, 'Cargo.toml'), 'w') as f:
         f.write('[package]\nname = "vreplay_%s"\nversion = "0.0.0"\nedition = "2021"\n\n[dependencies]\n%s\n\n[workspace]\n\n[profile.dev]\noverflow-checks = true\ndebug = false\n\n[lints.rust]\nunexpected_cfgs = { level = "allow" }\n' % (uname, '\n'.join(dict.fromkeys(deps))))
     with open(os.path.join(rdir, '.cargo', 'config.toml'), 'w') as f:
         f.write('[net]\noffline = true\n')
     shutil.copy(os.path.join(REPO, 'Cargo.lock'), os.path.join(rdir, 'Cargo.lock'))
     text = nu.text
+    text, arb_impls = emulate_arbitrary_derive(text)
+    text = text + '\n' + arb_impls
     text = re.sub(r'#\[kani::[^\]]*\]\s*', '', text)
     text = re.sub(r'(?m)^#!\[[^\]]*\]\s*$', '', text)
     text = re.sub(r'#\[cfg\(kani\)\]\s*', '', text)
